@@ -1,9 +1,234 @@
+import SwayVerif.Model.MiniIR
+import SwayVerif.Model.DedupFields
 import SwayVerif.Driver.Util
-/-! Driver for C03 (stub — replace `answer`; keep `run`). -/
-namespace SwayVerif.Driver.C03
-open SwayVerif.Driver
+/-!
+Driver for C03. Three kinds of lines (harness `sv_c03`):
 
-def answer (_line : String) : String := "unimplemented agree=0 prop=0"
+* `passes <pkg> <test> <with>@<base> ;; base=<digest> with=<digest> bs=<state> ws=<state>`
+  `passes <pkg> * <with>@<base> ;; base=ok with=- build=err:<class>` /
+  `… ;; base=- with=- build=baseerr:<class>` —
+  the real compiler + VM on a Sway package under two `SWAY_VERIF_IR_PASSES` settings. No model:
+  `prop` = equal observable outcome ∧ the variant still builds whenever the baseline builds.
+* `dedup <Arm> <field> ;; merged=<0|1>` — real `fn-dedup-release` on two functions that differ only in
+  that field. Model: merged ⇔ the field is not in the generated `hashed` table.
+  `prop` = a declared, not reviewed-as-derived field is never merged.
+* `miniir <passes> A <k> <a b>… <before> ;; <after>` — real passes on a function inside the MiniIR
+  subset; `prop` = `MiniIR.run before = MiniIR.run after` on every argument vector (fuel 48);
+  `agree` = structural tie to the modelled passes (unreachable blocks are gone after `simplify-cfg`,
+  real `dce` removes at least what the model's `dce` removes).
+-/
+namespace SwayVerif.Driver.C03
+open SwayVerif.Driver SwayVerif.MiniIR SwayVerif.DedupFields SwayVerif.Generated.DedupHashTable
+
+def kvOf (ts : List String) (k : String) : Option String :=
+  ts.findSome? fun t => match t.splitOn "=" with
+    | k' :: rest => if k' = k ∧ rest ≠ [] then some ("=".intercalate rest) else none
+    | _ => none
+
+def stateClass (s : String) : String :=
+  if s.startsWith "revert:0:" then "revert0-or-vmpanic"
+  else if s.startsWith "revert:" then "revert"
+  else if s.startsWith "return" then "return"
+  else if s.startsWith "panic" then "panic"
+  else "other"
+
+def pkgClass (p : String) : String :=
+  if p.startsWith "s:" then "nostd-scalar" else if p.startsWith "m:" then "nostd-aggr"
+  else if p.startsWith "gen:" then "std-gen" else if p.startsWith "trap:" then "trap-replay" else if p.startsWith "sw:" then "saved-source" else "std-inlang"
+
+def answerPasses (c i : List String) : String :=
+  match c with
+  | ["passes", pkg, test, lists] =>
+    let withL := (lists.splitOn "@").headD ""
+    let np := ((withL.replace "/" ",").splitOn ",").filter (fun x => x ≠ "" ∧ x ≠ "-") |>.length
+    let shape := if np ≤ 2 then "single" else if np ≥ 15 then "pipeline" else "multi"
+    match kvOf i "build" with
+    | some b =>
+      if b.startsWith "baseerr" then s!"skip agree=1 prop=1 class={pkgClass pkg} shape={shape} built=baseerr"
+      else s!"build-rejected agree=1 prop=0 class={pkgClass pkg} shape={shape} built=err"
+    | none =>
+      match kvOf i "base", kvOf i "with" with
+      | some b, some w =>
+        let eq := b == w && test ≠ "*"
+        s!"cmp agree=1 prop={b01 eq} class={pkgClass pkg} shape={shape} built=ok st={stateClass ((kvOf i "bs").getD "")}"
+      | _, _ => "bad-line agree=0 prop=0"
+  | _ => "bad-line agree=0 prop=0"
+
+def answerDedup (c i : List String) : String :=
+  match c with
+  | ["dedup", arm, fld] =>
+    let merged? : Option Bool := match i with
+      | ["merged=1"] => some true
+      | ["merged=0"] => some false
+      | _ => none
+    if arm = "Control" then
+      match merged? with
+      | some m => s!"expect-merged=1 agree={b01 m} prop=1 kind=control merged={b01 m}"
+      | none => "bad-probe agree=0 prop=1 kind=control"
+    else if arm = "Fact" then
+      match factNames.lookup fld, merged? with
+      | some f, some m =>
+        let expect := !facts.contains f
+        s!"expect-merged={b01 expect} agree={b01 (m == expect)} prop={b01 (!m)} kind=fact"
+      | _, _ => "bad-probe agree=0 prop=1 kind=fact"
+    else
+      match armNames.lookup arm, fldNames.lookup fld, merged? with
+      | some a, some f, some m =>
+        let expect := !(hashedOf a).contains f
+        let reviewed := reviewedUnhashed.contains (a, f)
+        let relevant := (declaredOf a).contains f
+        let prop := !m || reviewed || !relevant
+        s!"expect-merged={b01 expect} agree={b01 (m == expect)} prop={b01 prop} kind=field reviewed={b01 reviewed} merged={b01 m}"
+      | _, _, _ => "bad-probe agree=0 prop=1 kind=field"
+  | _ => "bad-line agree=0 prop=0"
+
+/-! ### MiniIR token parser -/
+
+def parseOpd (s : String) : Option Operand :=
+  if s.startsWith "v" then (s.drop 1).toNat?.map Operand.var
+  else if s.startsWith "cu" then (s.drop 2).toNat?.map fun n => Operand.const (.u n)
+  else if s = "cb0" then some (.const (.b false))
+  else if s = "cb1" then some (.const (.b true))
+  else none
+
+def binOfString : String → Option BinOp
+  | "add" => some .add | "sub" => some .sub | "mul" => some .mul | "div" => some .div | "mod" => some .mod
+  | "and" => some .and | "or" => some .or | "xor" => some .xor | "lsh" => some .lsh | "rsh" => some .rsh
+  | _ => none
+
+def predOfString : String → Option Pred
+  | "eq" => some .eq | "lt" => some .lt | "gt" => some .gt | _ => none
+
+def takeN {α : Type} (f : String → Option α) : Nat → List String → Option (List α × List String)
+  | 0, ts => some ([], ts)
+  | n + 1, t :: ts => do
+    let x ← f t
+    let (xs, rest) ← takeN f n ts
+    pure (x :: xs, rest)
+  | _, _ => none
+
+def parseTarget (ts : List String) : Option ((Label × List Operand) × List String) :=
+  match ts with
+  | l :: k :: rest => do
+    let l ← l.toNat?
+    let k ← k.toNat?
+    let (args, rest) ← takeN parseOpd k rest
+    pure ((l, args), rest)
+  | _ => none
+
+def parseInsts : Nat → List String → Option (List Inst × List String)
+  | 0, ts => some ([], ts)
+  | n + 1, "I" :: d :: "bin" :: op :: a :: b :: rest => do
+    let i := Inst.binop (← d.toNat?) (← binOfString op) (← parseOpd a) (← parseOpd b)
+    let (is, rest) ← parseInsts n rest
+    pure (i :: is, rest)
+  | n + 1, "I" :: d :: "cmp" :: p :: a :: b :: rest => do
+    let i := Inst.cmp (← d.toNat?) (← predOfString p) (← parseOpd a) (← parseOpd b)
+    let (is, rest) ← parseInsts n rest
+    pure (i :: is, rest)
+  | _, _ => none
+
+def parseTerm (ts : List String) : Option (Term × List String) :=
+  match ts with
+  | "T" :: "br" :: rest => do
+    let ((l, args), rest) ← parseTarget rest
+    pure (.br l args, rest)
+  | "T" :: "cbr" :: c :: rest => do
+    let c ← parseOpd c
+    let ((lt, ta), rest) ← parseTarget rest
+    let ((lf, fa), rest) ← parseTarget rest
+    pure (.cbr c lt ta lf fa, rest)
+  | "T" :: "ret" :: v :: rest => do pure (.ret (← parseOpd v), rest)
+  | _ => none
+
+def parseBlocks : Nat → List String → Option (List Block × List String)
+  | 0, ts => some ([], ts)
+  | n + 1, "B" :: l :: np :: rest => do
+    let l ← l.toNat?
+    let np ← np.toNat?
+    let (ps, rest) ← takeN String.toNat? np rest
+    match rest with
+    | ni :: rest =>
+      let ni ← ni.toNat?
+      let (is, rest) ← parseInsts ni rest
+      let (t, rest) ← parseTerm rest
+      let (bs, rest) ← parseBlocks n rest
+      pure (⟨l, ps, is, t⟩ :: bs, rest)
+    | [] => none
+  | _, _ => none
+
+def parseFunc (ts : List String) : Option (Func × List String) :=
+  match ts with
+  | "F" :: n :: rest => do
+    let n ← n.toNat?
+    let (bs, rest) ← parseBlocks n rest
+    let entry := match bs with | b :: _ => b.label | [] => 0
+    pure (⟨entry, bs⟩, rest)
+  | _ => none
+
+def parseArgs (ts : List String) : Option (List (List Val) × List String) :=
+  match ts with
+  | "A" :: k :: rest => do
+    let k ← k.toNat?
+    let (ns, rest) ← takeN String.toNat? (2 * k) rest
+    let rec pairs : List Nat → List (List Val)
+      | a :: b :: r => [Val.u a, Val.u b] :: pairs r
+      | _ => []
+    pure (pairs ns, rest)
+  | _ => none
+
+def showOutcome : Outcome → String
+  | .ret (.u n) => s!"ret:{n}"
+  | .ret (.b b) => s!"retb:{b01 b}"
+  | .trap => "trap"
+  | .stuck => "stuck"
+  | .timeout => "timeout"
+
+def countInsts (f : Func) : Nat := (f.blocks.map fun b => b.insts.length).sum
+
+def answerMini (c i : List String) : String :=
+  match c with
+  | "miniir" :: passes :: rest =>
+    match parseArgs rest with
+    | none => "bad-args agree=0 prop=1"
+    | some (vecs, rest) =>
+      match parseFunc rest with
+      | none => "bad-before agree=0 prop=1"
+      | some (before, _) =>
+        let first := (passes.splitOn ",").headD ""
+        let single := (passes.splitOn ",").length = 1
+        match i with
+        | [w] =>
+          if w.startsWith "unsupported" then s!"unsupported agree=1 prop=1 pass={first} out=unsupported"
+          else s!"impl-error agree=0 prop=1 pass={first} out={w}"
+        | _ =>
+          match parseFunc i with
+          | none => "bad-after agree=0 prop=1"
+          | some (after, _) =>
+            let fuel := 48
+            let ob := vecs.map fun v => run before v fuel
+            let oa := vecs.map fun v => run after v fuel
+            let stuck := ob.any fun o => o == .stuck
+            let prop := stuck || ob == oa
+            let agree :=
+              if single && first = "simplify-cfg" then
+                let s := reachSet before
+                after.blocks.all fun b => s.contains b.label
+              else if single && first = "dce" then
+                decide (countInsts after ≤ countInsts (dce (countInsts before) before))
+              else true
+            let o0 := match ob with | o :: _ => (showOutcome o).takeWhile (· ≠ ':') | [] => "none"
+            let chg := decide (countInsts after ≠ countInsts before) || decide (after.blocks.length ≠ before.blocks.length)
+            s!"{" ".intercalate (ob.map showOutcome)} agree={b01 (agree && !stuck)} prop={b01 prop} pass={first} npass={(passes.splitOn ",").length} out={o0} changed={b01 chg} nblocks={before.blocks.length}"
+  | _ => "bad-line agree=0 prop=0"
+
+def answer (line : String) : String :=
+  let (c, i) := splitCase line
+  match c with
+  | "passes" :: _ => answerPasses c i
+  | "dedup" :: _ => answerDedup c i
+  | "miniir" :: _ => answerMini c i
+  | _ => "bad-op agree=0 prop=0"
 
 def run : IO Unit := do
   lineLoop (← IO.getStdin) (← IO.getStdout) answer
